@@ -6,6 +6,7 @@ import (
 	"fmt"
 	"go/ast"
 	"go/types"
+	"sort"
 	"strings"
 
 	"golang.org/x/tools/go/types/typeutil"
@@ -486,6 +487,29 @@ func (x *Exec) callWithContract(st *State, call *ast.CallExpr, fn *types.Func, c
 				ae = call.Args[i]
 			}
 			bind(name, p.Type(), args[i], ae)
+		}
+	}
+	// closures passed to this call run (only) during it: what they assign is unknown afterwards
+	for _, a := range call.Args {
+		if l, ok := ast.Unparen(a).(*ast.FuncLit); ok {
+			var objs []types.Object
+			for o := range x.assignedInLit(l) {
+				if _, ok := st.vars[o]; ok {
+					objs = append(objs, o)
+				}
+			}
+			sort.Slice(objs, func(i, j int) bool { return objs[i].Pos() < objs[j].Pos() })
+			for _, o := range objs {
+				keep := false
+				for _, w := range writebacks {
+					if id, ok := ast.Unparen(w.e).(*ast.Ident); ok && x.objOf(id) == o {
+						keep = true // the callee's postcondition describes it (receiver / reference argument)
+					}
+				}
+				if !keep {
+					x.havocVar(st, o)
+				}
+			}
 		}
 	}
 	// preconditions
